@@ -8,6 +8,7 @@ import NutilsVerif.Proofs.C06Cons
 import NutilsVerif.Proofs.C06Agree
 import NutilsVerif.Proofs.C06Len
 import NutilsVerif.Proofs.C06Comm
+import NutilsVerif.Model.C06Func
 /-!
 # C06 — static array metadata is sound: property theorems
 
@@ -22,6 +23,8 @@ every loop iteration; evaluation depends only on the announced arguments (a loop
 (also Part 2) the evaluated value has the announced shape (`shape_sound`).
 Part 3: every consumer of ranges (`_isindex`, `InRange/Mod/Minimum/Maximum/NormDim._simplified`, `Power.__post_init__`,
 `InsertAxis._inverse`) is value preserving.
+Part 4 (`namespace Func`): user-level function arrays — the announced-arguments table computed by `function._Replace.__init__`
+(`Model/C06Func.lean`) suffices for evaluation, for arbitrary nestings of simultaneous replacements.
 -/
 namespace NutilsVerif.C06
 open PyNum
@@ -282,5 +285,57 @@ example : WF (.loopConcat 0 (.const true [3]) (.insertAxis (.loopIndex 0 (.const
   simp [WF, lenOf]
 example : scalarOf (eval (concatLen 0 (.const true [3]) (.loopIndex 0 (.const true [3]))) Env.empty) = some 3 := by decide
 example : (simpInRange (.argS 0 (int 0) (int 2)) (.const true [3])).isSome = true := by decide
+
+/-! ## Part 4: announced arguments of user-level function arrays under `replace_arguments` -/
+namespace Func
+
+/-- "depends only on the announced arguments" for function arrays: two environments that agree on the names `_Replace.__init__`
+announces (unreplaced names of the operand + the announced names of the replacements of the names present) give the same value,
+for every nesting of simultaneous replacements (also `a:b,b:a`, replacements that mention the replaced name, keys that are absent). -/
+theorem eval_depends_only_on_announced_arguments (e : F) :
+    ∀ env1 env2 : String → Int, (∀ n ∈ announced e, env1 n = env2 n) → eval env1 e = eval env2 e := by
+  induction e with
+  | const v => intro _ _ _; rfl
+  | arg n => intro env1 env2 h; exact h n (by simp [announced])
+  | add a b iha ihb =>
+    intro env1 env2 h
+    simp only [eval]
+    rw [iha env1 env2 (fun n hn => h n (by simp [announced, hn])), ihb env1 env2 (fun n hn => h n (by simp [announced, hn]))]
+  | mul a b iha ihb =>
+    intro env1 env2 h
+    simp only [eval]
+    rw [iha env1 env2 (fun n hn => h n (by simp [announced, hn])), ihb env1 env2 (fun n hn => h n (by simp [announced, hn]))]
+  | replace f keys repl ihf ihr =>
+    intro env1 env2 h
+    simp only [eval]
+    apply ihf
+    intro n hn
+    by_cases hk : keys.contains n = true
+    · simp only [hk, if_true]
+      apply ihr
+      intro m hm
+      apply h
+      simp only [announced, announceReplace, List.mem_append, List.mem_flatMap, List.mem_filter]
+      exact Or.inr ⟨n, ⟨hn, hk⟩, hm⟩
+    · simp only [hk]
+      apply h
+      simp only [announced, announceReplace, List.mem_append, List.mem_filter]
+      exact Or.inl ⟨hn, by simpa using hk⟩
+
+/-- the table is not an over-approximation by accident: a replaced name that the replacement does not use is NOT announced,
+and a name that stays is -/
+example : announced (.replace (.add (.arg "a") (.arg "b")) ["a"] (fun _ => .arg "ab")) = ["b", "ab"] := by decide
+
+/-- the filter must test membership among the parsed names: a substring test on the textual specification `"a:ab"` drops `b`,
+and evaluation then depends on an argument that is not announced -/
+theorem substring_filter_unsound :
+    ∃ env1 env2 : String → Int, (∀ n ∈ ["ab"], env1 n = env2 n) ∧
+      eval env1 (.replace (.add (.arg "a") (.arg "b")) ["a"] (fun _ => .arg "ab")) ≠
+      eval env2 (.replace (.add (.arg "a") (.arg "b")) ["a"] (fun _ => .arg "ab")) := by
+  refine ⟨fun _ => 0, fun n => if n = "b" then 1 else 0, ?_, ?_⟩
+  · intro n hn; simp at hn; subst hn; decide
+  · decide
+
+end Func
 
 end NutilsVerif.C06
